@@ -6,7 +6,7 @@ import socket as _rs
 
 from .. import rfc6455 as R
 from ..harness import S, Result, InvalidScenario, exc_name
-from ..kernel import SimAbort
+from ..kernel import SimAbort, HarnessError
 from ..peers import WSPeer
 from ..runner import derive_seed
 from ..world import World
@@ -90,6 +90,9 @@ def expand(item, seed):
                                "addrs": [{"fam": 6 if host == "ipv6" else 4, "outcome": "accept"}], "sockopt": [],
                                "timeout": 3 * S, "seed": 1}
     elif k == "malformed":
+        for m in MALFORMED:
+            yield {"malformed": m, "addrs": [{"fam": 4, "outcome": "accept"}], "sockopt": [], "timeout": 3 * S, "seed": 1,
+                   "on_connected_object": True}
         for m in MALFORMED:
             yield {"malformed": m, "addrs": [{"fam": 4, "outcome": "accept"}], "sockopt": [], "timeout": 3 * S, "seed": 1}
     else:
@@ -192,10 +195,18 @@ def run(sc, choices=None):
         if tls:
             import ssl
             kw["sslopt"] = {"cert_reqs": ssl.CERT_NONE, "check_hostname": False}
+        first = None
         try:
-            c = ws.create_connection(url, timeout=None if T is None else int(T) / S, **kw)
-            outcome = ("ok",)
-            c.close(timeout=1)
+            if sc.get("on_connected_object"):
+                # the call is made on an object that is connected: refusing the URL must leave that connection alone
+                first = ws.create_connection("ws://multi.sim.test/", timeout=3)
+                base = (len(w.net.resolver_calls), len(w.net.sockets))
+                first.connect(url)
+                outcome = ("ok",)
+            else:
+                c = ws.create_connection(url, timeout=None if T is None else int(T) / S, **kw)
+                outcome = ("ok",)
+                c.close(timeout=1)
         except SimAbort:
             outcome = ("abort", w.k.abort_reason)
         except BaseException as e:  # noqa
@@ -205,6 +216,18 @@ def run(sc, choices=None):
     ctx = "malformed" if malformed is not None else ("multi_address" if len(addrs) > 1 else "single_address")
     if outcome[0] == "abort":
         res.violate("connect_hangs", ctx, f"{url}: {outcome[1]}")
+    elif malformed is not None and sc.get("on_connected_object"):
+        ctx += "/on_connected_object"
+        res.probes["malformed_url_on_connected_object"] = 1
+        if outcome[0] != "exc" or not outcome[4]:
+            res.violate("malformed_url_not_refused", ctx, f"{url!r}: outcome {outcome}")
+        s0 = socks[0] if socks else None
+        if first is None or s0 is None:
+            raise HarnessError("first connection was not established")
+        if (len(w.net.resolver_calls), len(socks)) != base or s0.closed or s0.shut_wr or s0.shut_rd or not first.connected:
+            res.violate("network_activity_for_malformed_url", ctx,
+                        f"{url!r} on a connected object: resolver calls/sockets {base} -> {(len(w.net.resolver_calls), len(socks))}, "
+                        f"existing connection closed={s0.closed} shut_wr={s0.shut_wr} connected={first.connected}")
     elif malformed is not None:
         if outcome[0] != "exc" or not outcome[4]:
             res.violate("malformed_url_not_refused", ctx, f"{url!r}: outcome {outcome}")
